@@ -167,7 +167,7 @@ Qed.
 
 Lemma r2_inputs_uniq v : uniq (map fst (r2_inputs recv v)).
 Proof.
-rewrite /r2_inputs -map_comp map_inj_in_uniq; last first.
+rewrite /r2_inputs -map_comp map_inj_in_uniq.
   by apply: filter_uniq; apply: map_uniq (proj1 C).
 move=> a b; rewrite !mem_filter => /andP[/eqP va /(proj2 C)[va' [ia [_ _ _ ea]]]].
 move=> /andP[/eqP vb /(proj2 C)[vb' [ib [_ _ _ eb]]]].
@@ -255,6 +255,144 @@ Qed.
 Theorem frost_pubshare v i casts2 :
   cast_contract cast2_msg casts2 -> (v < numVals)%N -> (i < n)%N ->
   out_pubshare v i casts2 = Some (pk (sk v i)).
-Proof. by move=> C lv li; have [-> _] := routed C lv li isT. Qed.
+Proof. by move=> C lv li; rewrite /out_pubshare; have [-> _] := routed C lv li isT. Qed.
+
+(* ------------------------------------------------------------------------------------------ *)
+(* The concrete network: everything the n honest nodes send; node j receives the messages
+   addressed to it in an arbitrary order.                                                       *)
+
+Definition vis : seq (nat * nat) := [seq (v, i) | v <- iota 0 numVals, i <- iota 0 n].
+
+Definition sent_p2p : seq (key * F) :=
+  [seq m <- [seq ((vi.1, vi.2.+1, j.+1), (f vi.1 vi.2).[x j]) | vi <- vis, j <- iota 0 n]
+   | ksrc m.1 != ktgt m.1].
+
+Definition delivered_to (j : nat) : seq (key * F) := [seq m <- sent_p2p | ktgt m.1 == j.+1].
+
+Definition sent_cast (msg : nat -> nat -> key * G1) : seq (key * G1) :=
+  [seq ((vi.1, vi.2.+1, 0%N), (msg vi.1 vi.2).2) | vi <- vis].
+
+Lemma vis_uniq : uniq vis.
+Proof. by apply: allpairs_uniq; rewrite ?iota_uniq // => -[a1 a2] [b1 b2] _ _ /=. Qed.
+
+Lemma mem_vis v i : ((v, i) \in vis) = (v < numVals)%N && (i < n)%N.
+Proof.
+apply/allpairsP/andP => [[[v' i'] /= [vin iin [-> ->]]]|[lv li]].
+  by move: vin iin; rewrite !mem_iota.
+by exists (v, i); rewrite /= !mem_iota.
+Qed.
+
+Lemma delivered_contract j recv : (j < n)%N -> perm_eq recv (delivered_to j) -> p2p_contract j recv.
+Proof.
+move=> lj pe; split.
+  rewrite (perm_uniq (perm_map fst pe)) /delivered_to /sent_p2p.
+  apply: (subseq_uniq (map_subseq fst (filter_subseq _ _))).
+  apply: (subseq_uniq (map_subseq fst (filter_subseq _ _))).
+  rewrite map_allpairs /=; apply: allpairs_uniq; rewrite ?iota_uniq ?vis_uniq //.
+  by move=> [[v i] j1] [[v' i'] j2] _ _ /= [-> -> ->].
+move=> m; rewrite (perm_mem pe) /delivered_to /sent_p2p !mem_filter; split.
+  case/and3P=> /eqP tj st /allpairsP[[[v i] j'] /= [vin jin em]].
+  move: tj st; rewrite em /ktgt /ksrc /= => -[ej]; rewrite eqSS ej => ij.
+  by move: vin; rewrite mem_vis => /andP[lv li]; exists v, i; split=> //; rewrite ej.
+case=> v [i [lv li ij ->]]; rewrite /ktgt /ksrc /= eqxx eqSS ij /=.
+apply/allpairsP; exists ((v, i), j) => /=; split=> //; first by rewrite mem_vis lv li.
+by rewrite mem_iota add0n.
+Qed.
+
+Lemma sent_cast_contract msg recv : perm_eq recv (sent_cast msg) -> cast_contract msg recv.
+Proof.
+move=> pe; split.
+  rewrite (perm_uniq (perm_map fst pe)) /sent_cast -map_comp map_inj_uniq ?vis_uniq //.
+  by move=> [v i] [v' i'] /= [-> ->].
+move=> m; rewrite (perm_mem pe); split.
+  case/mapP=> [[v i]]; rewrite mem_vis => /andP[lv li] ->.
+  by exists v, i.
+case=> v [i [lv li _ ->]]; apply/mapP; exists (v, i) => //.
+by rewrite mem_vis lv li.
+Qed.
+
+(* routing_exact on the concrete network *)
+Theorem routing_exact_net j p2p' : (j < n)%N -> perm_eq p2p' (delivered_to j) ->
+  forall v i, (v < numVals)%N -> (i < n)%N -> i != j ->
+  lookup (r2_inputs p2p' v) i.+1 = Some (f v i).[x j] /\
+  [seq e <- r2_inputs p2p' v | e.1 == i.+1] = [:: (i.+1, (f v i).[x j])] /\
+  (forall e, e \in r2_inputs p2p' v -> exists i', [/\ (i' < n)%N, i' != j & e = (i'.+1, (f v i').[x j])]).
+Proof. by move=> lj pe; apply: (routing_exact (delivered_contract lj (perm_refl _)) pe). Qed.
+
+(* frost_consistent.  For every node j < n, whatever the orders in which the round-1 p2p shares
+   addressed to it, the round-1 broadcasts and the round-2 broadcasts arrive: its secret share is
+   the joint polynomial at its id, its group key is the image of the joint secret, the public
+   share it files for every node i is the image of i's secret share, and the joint polynomial
+   has degree < t.  The right-hand sides do not mention j or the arrival orders: all nodes
+   hold the same group key and the same public shares, and every secret share matches the
+   public share published for it. *)
+Theorem frost_consistent j p2p casts1 casts2 :
+  (j < n)%N ->
+  perm_eq p2p (delivered_to j) ->
+  perm_eq casts1 (sent_cast cast1_msg) ->
+  perm_eq casts2 (sent_cast cast2_msg) ->
+  forall v, (v < numVals)%N ->
+  [/\ r2_sk j v casts1 p2p = sk v j,
+      r2_vk j v casts1 = group_key v,
+      forall i, (i < n)%N -> out_pubshare v i casts2 = Some (pk (sk v i)),
+      out_pubshare v j casts2 = Some (pk (r2_sk j v casts1 p2p))
+    & (size (joint v) <= t)%N].
+Proof.
+move=> lj pp pc1 pc2 v lv.
+have Cp := delivered_contract lj pp.
+have C1 := sent_cast_contract pc1.
+have C2 := sent_cast_contract pc2.
+split; first exact: frost_sk.
+- exact: frost_vk.
+- by move=> i li; apply: frost_pubshare.
+- by rewrite (frost_sk C1 Cp lj lv); apply: frost_pubshare.
+- exact: size_joint.
+Qed.
+
+(* ... so all C08 theorems apply to the joint polynomial: any t public shares reconstruct the
+   group key (and any >= t) *)
+Theorem frost_pubshares_reconstruct v js :
+  char_above F n -> uniq js -> {subset js <= iota 0 n} -> (t <= size js)%N ->
+  recover x js (fun i => pk (sk v i)) = group_key v.
+Proof.
+move=> ch U sub tj; have [D _] := nat_ids_ok ch U sub.
+exact: (recover_image g1 D (size_joint v) tj).
+Qed.
 
 End Frost.
+
+(* any t secret shares sign validly: the partial signatures of >= t nodes combine to the signature
+   of the joint secret, which verifies under the group key; and a combination with one wrong
+   partial verifies only in the degenerate cases of C08 *)
+Section FrostSign.
+Variables (F : fieldType) (G1 G2 GT : lmodType F) (e : G1 -> G2 -> GT) (g1 : G1).
+Hypothesis e_scalel : forall a u v, e (a *: u) v = a *: e u v.
+Hypothesis e_scaler : forall a u v, e u (a *: v) = a *: e u v.
+Hypothesis e_subr : forall u v w, e u (v - w) = e u v - e u w.
+Hypothesis e_nondeg : forall v, e g1 v = 0 -> v = 0.
+Variables (n t : nat) (f : nat -> nat -> {poly F}).
+Hypothesis f_deg : forall v i, (size (f v i) <= t)%N.
+Hypothesis ch : char_above F n.
+
+Theorem frost_threshold_signature v js h :
+  uniq js -> {subset js <= iota 0 n} -> (t <= size js)%N ->
+  recover (idn F) js (fun i => sign (sk n f v i) h) = sign (joint n f v).[0] h /\
+  verify e g1 (group_key g1 n f v) h (recover (idn F) js (fun i => sign (sk n f v i) h)).
+Proof.
+move=> U sub tj; have [D _] := nat_ids_ok ch U sub.
+have [A [_ B]] := threshold_signature_correct e_scalel e_scaler e_subr e_nondeg
+                    (@size_joint F n t f f_deg v) tj D h.
+by split.
+Qed.
+
+Theorem frost_wrong_partial_iff v js h j (sig' : G2) :
+  uniq js -> {subset js <= iota 0 n} -> (t <= size js)%N -> j \in js ->
+  verify e g1 (group_key g1 n f v) h
+    (recover (idn F) js (fun k => if k == j then sig' else sign (sk n f v k) h))
+  <-> sig' = sign (sk n f v j) h.
+Proof.
+move=> U sub tj jin; have [D N] := nat_ids_ok ch U sub.
+exact: (wrong_partial_iff e_scalel e_scaler e_subr e_nondeg (@size_joint F n t f f_deg v) tj D N).
+Qed.
+
+End FrostSign.
